@@ -1,11 +1,14 @@
-// Command skelgen regenerates lean/LiskVerif/Gen/Skeletons.lean from the current source of /repo:
-// for a configured list of types it extracts, for every method, the *synchronisation skeleton* in
-// program order (tie A of DESIGN.md §3.3 for property C20): lock / unlock operations, calls to other
-// configured methods, goroutine spawns, channel operations, accesses to the guarded fields of the
-// receiver and writes to captured local variables inside spawned closures, with the control
-// structure (choice / loop / return) preserved. Everything the extractor does not understand inside
-// a configured function is emitted as `Unknown "<position>"`, which makes the Lean criteria fail —
-// nothing is dropped silently. Uses go/ast + go/parser only.
+// Command skelgen regenerates lean/LiskVerif/Gen/Skeletons*.lean from the current source of /repo
+// (one generated file per configured *group*: Skeletons.lean for C20, SkeletonsTxPool.lean for C14,
+// SkeletonsP2P.lean for C17): for a configured list of types it extracts, for every method, the
+// *synchronisation skeleton* in program order (tie A of DESIGN.md §3.3): lock / unlock operations,
+// calls to other configured methods, goroutine spawns, channel operations (a communication in a
+// `select` with a `default` branch is a non-blocking `trySend` / `tryRecv`; `x = make(chan T, n)`
+// with a literal capacity is `makeChan x n`), accesses to the guarded fields of the receiver
+// (`delete(field, k)` is `del field`) and writes to captured local variables inside spawned
+// closures, with the control structure (choice / loop / return) preserved. Everything the extractor
+// does not understand inside a configured function is emitted as `Unknown "<position>"`, which makes
+// the Lean criteria fail — nothing is dropped silently. Uses go/ast + go/parser only.
 package main
 
 import (
@@ -37,26 +40,64 @@ type typeCfg struct {
 	only    []string          // if non-empty: only these methods are extracted
 }
 
-var types = []typeCfg{
-	{pkg: "pkg/blockchain", name: "blockCache", file: "block_cache.go",
-		guarded: map[string]string{"cachedBlocks": "mutex", "heightIndex": "mutex", "size": "mutex", "currentHeight": "mutex"}},
-	{pkg: "pkg/blockchain", name: "DataAccess", file: "data_access.go"},
-	{pkg: "pkg/blockchain", name: "Chain", file: "chain.go"},
-	{pkg: "pkg/consensus/certificate", name: "Pool", file: "pool.go",
-		guarded: map[string]string{"nonGossiped": "mutex", "gossiped": "mutex"}},
-	{pkg: "pkg/event", name: "EventEmitter", file: "event.go",
-		guarded: map[string]string{"events": "rwMutex"}},
-	{pkg: "pkg/db/diffdb", name: "Database", file: "db.go",
-		guarded: map[string]string{"cache": "mutex", "snapshots": "mutex", "snapshotCount": "mutex"},
-		helpers: []string{"ensureCache", "getKey", "mergeSortLimit"}},
-	{pkg: "pkg/consensus/sync", name: "blockSyncer", file: "block_sync.go"},
-	{pkg: "pkg/consensus/sync", name: "Syncer", file: "sync.go",
-		only: []string{"HandleRPCEndpointGetLastBlock", "HandleRPCEndpointGetHighestCommonBlock", "HandleRPCEndpointGetBlocksFromID"}},
+// A group is one generated Lean file: its own call table, entry list, guards and lock order.
+type group struct {
+	name      string // command line name
+	file      string // Lean file name under lean/LiskVerif/Gen
+	namespace string // Lean namespace of the generated definitions
+	about     string // property the file is generated for (header comment)
+	types     []typeCfg
+	// fixed global acquisition order of the struct mutexes (outermost first); function-local mutexes
+	// are appended behind them in order of appearance.
+	lockOrder []string
 }
 
-// fixed global acquisition order of the struct mutexes (outermost first); function-local mutexes
-// are appended behind them in order of appearance.
-var lockOrder = []string{"EventEmitter.rwMutex", "Pool.mutex", "Database.mutex", "blockCache.mutex"}
+var groups = []group{
+	{name: "c20", file: "Skeletons.lean", namespace: "LiskVerif.Gen.Skeletons", about: "C20 (shared chain data)",
+		types: []typeCfg{
+			{pkg: "pkg/blockchain", name: "blockCache", file: "block_cache.go",
+				guarded: map[string]string{"cachedBlocks": "mutex", "heightIndex": "mutex", "size": "mutex", "currentHeight": "mutex"}},
+			{pkg: "pkg/blockchain", name: "DataAccess", file: "data_access.go"},
+			{pkg: "pkg/blockchain", name: "Chain", file: "chain.go"},
+			{pkg: "pkg/consensus/certificate", name: "Pool", file: "pool.go",
+				guarded: map[string]string{"nonGossiped": "mutex", "gossiped": "mutex"}},
+			{pkg: "pkg/event", name: "EventEmitter", file: "event.go",
+				guarded: map[string]string{"events": "rwMutex"}},
+			{pkg: "pkg/db/diffdb", name: "Database", file: "db.go",
+				guarded: map[string]string{"cache": "mutex", "snapshots": "mutex", "snapshotCount": "mutex"},
+				helpers: []string{"ensureCache", "getKey", "mergeSortLimit"}},
+			{pkg: "pkg/consensus/sync", name: "blockSyncer", file: "block_sync.go"},
+			{pkg: "pkg/consensus/sync", name: "Syncer", file: "sync.go",
+				only: []string{"HandleRPCEndpointGetLastBlock", "HandleRPCEndpointGetHighestCommonBlock", "HandleRPCEndpointGetBlocksFromID"}},
+		},
+		lockOrder: []string{"EventEmitter.rwMutex", "Pool.mutex", "Database.mutex", "blockCache.mutex"}},
+
+	// C14: the transaction pool. Every method of TransactionPool (txpool.go) and of the per-sender list
+	// addressTransactions (txlist.go). The methods documented "the caller must hold t.mutex" and the
+	// unexported list helpers are analysed inlined into their callers only. All sender lists share one
+	// skeleton mutex name (addressTransactions.mutex): criteria (1)/(2) then forbid holding two list
+	// mutexes at once, which is stronger than what the per-instance mutexes need.
+	// Calls into pkg/event (t.events.*) are outside this group: the emitter has its own mutex and is
+	// covered by the c20 group.
+	{name: "txpool", file: "SkeletonsTxPool.lean", namespace: "LiskVerif.Gen.SkeletonsTxPool", about: "C14 (transaction pool)",
+		types: []typeCfg{
+			{pkg: "pkg/txpool", name: "TransactionPool", file: "txpool.go",
+				guarded: map[string]string{"allTransactions": "mutex", "perAccount": "mutex", "feePriorityQueue": "mutex"},
+				helpers: []string{"rebuildFeePriorityQueue", "evictUnprocessable", "evictProcessable", "removeLocked"}},
+			{pkg: "pkg/txpool", name: "addressTransactions", file: "txlist.go",
+				guarded: map[string]string{"transactions": "mutex", "processables": "mutex"},
+				helpers: []string{"remove", "demoteAfter", "maxNonce"}},
+		},
+		lockOrder: []string{"TransactionPool.mutex", "addressTransactions.mutex"}},
+
+	// C17: the request/response layer of the p2p message protocol (message_protocol.go).
+	{name: "p2p", file: "SkeletonsP2P.lean", namespace: "LiskVerif.Gen.SkeletonsP2P", about: "C17 (p2p request/response)",
+		types: []typeCfg{
+			{pkg: "pkg/p2p", name: "MessageProtocol", file: "message_protocol.go",
+				guarded: map[string]string{"resCh": "resMu"}},
+		},
+		lockOrder: []string{"MessageProtocol.resMu"}},
+}
 
 // ---------------------------------------------------------------------------------------------
 // skeleton representation
@@ -64,6 +105,7 @@ var lockOrder = []string{"EventEmitter.rwMutex", "Pool.mutex", "Database.mutex",
 type action struct {
 	Op   string     `json:"op"`
 	Arg  string     `json:"arg,omitempty"`
+	N    int        `json:"n,omitempty"` // capacity of a makeChan
 	Body []action   `json:"body,omitempty"`
 	Alts [][]action `json:"alts,omitempty"`
 }
@@ -86,6 +128,7 @@ type typeRef struct {
 	name  string
 	kind  string // "named" | "chan" | "mutex" | "rwmutex" | "other"
 	valid bool
+	elem  *typeRef // element type of a slice / array / map / channel type
 }
 
 type pkgInfo struct {
@@ -213,8 +256,15 @@ func (g *gen) typeFromExpr(dir string, f *ast.File, e ast.Expr) typeRef {
 			}
 		}
 	case *ast.ChanType:
-		return typeRef{kind: "chan", valid: true}
-	case *ast.ArrayType, *ast.MapType, *ast.FuncType, *ast.InterfaceType, *ast.StructType, *ast.Ellipsis:
+		el := g.typeFromExpr(dir, f, x.Value)
+		return typeRef{kind: "chan", valid: true, elem: &el}
+	case *ast.ArrayType:
+		el := g.typeFromExpr(dir, f, x.Elt)
+		return typeRef{kind: "other", valid: true, elem: &el}
+	case *ast.MapType:
+		el := g.typeFromExpr(dir, f, x.Value)
+		return typeRef{kind: "other", valid: true, elem: &el}
+	case *ast.FuncType, *ast.InterfaceType, *ast.StructType, *ast.Ellipsis:
 		return typeRef{kind: "other", valid: true}
 	}
 	return typeRef{}
@@ -347,14 +397,47 @@ func (c *fctx) typeOf(e ast.Expr) typeRef {
 		case *ast.AssignStmt:
 			for i, l := range d.Lhs {
 				if id, ok := l.(*ast.Ident); ok && id.Name == x.Name {
+					if len(d.Rhs) == 1 {
+						// `for k, v := range X`: the parser records the range clause as `k, v := range X`
+						if u, ok := d.Rhs[0].(*ast.UnaryExpr); ok && u.Op == token.RANGE {
+							ct := c.typeOf(u.X)
+							if !ct.valid {
+								return typeRef{}
+							}
+							if (i == 1 || (i == 0 && ct.kind == "chan")) && ct.elem != nil {
+								return *ct.elem
+							}
+							if i == 0 && ct.kind != "chan" {
+								return typeRef{kind: "other", valid: true} // key / index
+							}
+							return typeRef{}
+						}
+					}
 					if len(d.Rhs) == len(d.Lhs) {
 						return c.typeOf(d.Rhs[i])
 					}
 					if len(d.Rhs) == 1 {
+						// comma-ok forms: v, ok := m[k] / x.(T)
+						switch r := d.Rhs[0].(type) {
+						case *ast.IndexExpr, *ast.TypeAssertExpr:
+							if i == 0 {
+								return c.typeOf(r)
+							}
+							return typeRef{kind: "other", valid: true}
+						}
 						return c.callResult(d.Rhs[0], i)
 					}
 				}
 			}
+		}
+	case *ast.IndexExpr:
+		if ct := c.typeOf(x.X); ct.valid && ct.elem != nil {
+			return *ct.elem
+		}
+		return typeRef{}
+	case *ast.TypeAssertExpr:
+		if x.Type != nil {
+			return c.g.typeFromExpr(c.dir, c.file, x.Type)
 		}
 	case *ast.SelectorExpr:
 		if id, ok := x.X.(*ast.Ident); ok && id.Obj == nil && importPath(c.file, id.Name) != "" {
@@ -770,7 +853,7 @@ func (c *fctx) call(x *ast.CallExpr) []action {
 			out := c.exprs(x.Args)
 			if len(x.Args) > 0 {
 				if f := c.guardedField(c.baseOf(x.Args[0])); f != "" {
-					out = append(out, action{Op: "write", Arg: f})
+					out = append(out, action{Op: "del", Arg: f}) // removal from a guarded map (a write)
 				}
 			}
 			return out
@@ -874,6 +957,35 @@ func (c *fctx) lhs(e ast.Expr) []action {
 	return out
 }
 
+// makeChan recognises `target = make(chan T)` / `make(chan T, n)` with a literal capacity and emits
+// the creation of the channel under the name of the target. A capacity that is not an integer literal
+// emits nothing: obligations that need a capacity then fail (they never pass by default).
+func (c *fctx) makeChan(target ast.Expr, val ast.Expr) []action {
+	call, ok := val.(*ast.CallExpr)
+	if !ok || len(call.Args) == 0 || len(call.Args) > 2 {
+		return nil
+	}
+	if id, ok := call.Fun.(*ast.Ident); !ok || id.Name != "make" || id.Obj != nil {
+		return nil
+	}
+	if _, ok := call.Args[0].(*ast.ChanType); !ok {
+		return nil
+	}
+	n := 0
+	if len(call.Args) == 2 {
+		lit, ok := call.Args[1].(*ast.BasicLit)
+		if !ok || lit.Kind != token.INT {
+			return nil
+		}
+		v, err := strconv.ParseInt(lit.Value, 0, 32)
+		if err != nil || v < 0 {
+			return nil
+		}
+		n = int(v)
+	}
+	return []action{{Op: "makeChan", Arg: c.text(target), N: n}}
+}
+
 func (c *fctx) stmt(s ast.Stmt) []action {
 	switch x := s.(type) {
 	case nil:
@@ -890,6 +1002,11 @@ func (c *fctx) stmt(s ast.Stmt) []action {
 			for _, sp := range gd.Specs {
 				if vs, ok := sp.(*ast.ValueSpec); ok {
 					out = append(out, c.exprs(vs.Values)...)
+					if len(vs.Names) == len(vs.Values) {
+						for i, n := range vs.Names {
+							out = append(out, c.makeChan(n, vs.Values[i])...)
+						}
+					}
 				}
 			}
 		}
@@ -898,6 +1015,11 @@ func (c *fctx) stmt(s ast.Stmt) []action {
 		out := c.exprs(x.Rhs)
 		if x.Tok != token.ASSIGN && x.Tok != token.DEFINE { // op-assignment reads the target as well
 			out = append(out, c.exprs(x.Lhs)...)
+		}
+		if len(x.Lhs) == len(x.Rhs) {
+			for i, l := range x.Lhs {
+				out = append(out, c.makeChan(l, x.Rhs[i])...)
+			}
 		}
 		for _, l := range x.Lhs {
 			out = append(out, c.lhs(l)...)
@@ -930,6 +1052,15 @@ func (c *fctx) stmt(s ast.Stmt) []action {
 			if t := c.typeOf(sel.X); t.kind != "named" {
 				return nil // wg.Done()
 			}
+		}
+		// a deferred call without any skeleton action of its own (s.Close(), cancel(), ...) has no
+		// effect on the skeleton, whenever it runs
+		if _, isLit := x.Call.Fun.(*ast.FuncLit); !isLit {
+			saved := c.unknowns
+			if acts := simplify(c.call(x.Call)); len(acts) == 0 {
+				return nil
+			}
+			c.unknowns = saved
 		}
 		return []action{c.unknown(x, "defer")}
 	case *ast.GoStmt:
@@ -1006,11 +1137,15 @@ func (c *fctx) stmt(s ast.Stmt) []action {
 			var alt []action
 			if cc.Comm != nil {
 				comm := c.stmt(cc.Comm)
-				if hasDefault { // non-blocking attempt
+				if hasDefault { // non-blocking attempt: the communication happens only if it is ready
 					for _, a := range comm {
-						if a.Op != "send" && a.Op != "recv" {
-							alt = append(alt, a)
+						switch a.Op {
+						case "send":
+							a.Op = "trySend"
+						case "recv":
+							a.Op = "tryRecv"
 						}
+						alt = append(alt, a)
 					}
 				} else {
 					alt = append(alt, comm...)
@@ -1201,6 +1336,8 @@ func leanAct(a action, ind string) string {
 		return ".choice [" + strings.Join(alts, ",\n"+ind+"  ") + "]"
 	case "ret":
 		return ".ret"
+	case "makeChan":
+		return ".makeChan " + leanStr(a.Arg) + " " + strconv.Itoa(a.N)
 	}
 	return "." + a.Op + " " + leanStr(a.Arg)
 }
@@ -1234,9 +1371,40 @@ func contains(l []string, s string) bool {
 
 func main() {
 	repo := flag.String("repo", "/repo", "repository root")
-	leanOut := flag.String("lean", "", "output Lean file")
-	jsonOut := flag.String("json", "", "output JSON file")
+	groupName := flag.String("group", "c20", "configured group to extract (with -lean / -json)")
+	leanOut := flag.String("lean", "", "output Lean file of the selected group")
+	jsonOut := flag.String("json", "", "output JSON file of the selected group")
+	leanDir := flag.String("leandir", "", "write the Lean file of EVERY group into this directory")
+	jsonDir := flag.String("jsondir", "", "with -leandir: write skeletons[-<group>].json of every group into this directory")
 	flag.Parse()
+	if *leanDir != "" {
+		for i := range groups {
+			gr := &groups[i]
+			js := ""
+			if *jsonDir != "" {
+				js = filepath.Join(*jsonDir, "skeletons-"+gr.name+".json")
+				if gr.name == "c20" {
+					js = filepath.Join(*jsonDir, "skeletons.json")
+				}
+			}
+			runGroup(*repo, gr, filepath.Join(*leanDir, gr.file), js)
+		}
+		return
+	}
+	for i := range groups {
+		if groups[i].name == *groupName {
+			runGroup(*repo, &groups[i], *leanOut, *jsonOut)
+			return
+		}
+	}
+	fmt.Fprintln(os.Stderr, "skelgen: unknown group", *groupName)
+	os.Exit(1)
+}
+
+// runGroup extracts one group (fresh extractor state: the call table of a group is self-contained).
+func runGroup(repoDir string, gr *group, leanFile, jsonFile string) {
+	repo, leanOut, jsonOut := &repoDir, &leanFile, &jsonFile
+	types, lockOrder := gr.types, gr.lockOrder
 	g := &gen{repo: *repo, fset: token.NewFileSet(), pkgs: map[string]*pkgInfo{}, cfg: map[string]*typeCfg{}, scope: map[string]bool{}, names: map[string]bool{}}
 	for i := range types {
 		t := &types[i]
@@ -1336,8 +1504,12 @@ func main() {
 	order := append(append([]string{}, lockOrder...), g.localMus...)
 
 	var sb strings.Builder
-	sb.WriteString("/- GENERATED by tools/skelgen from /repo — do not edit. Regenerated on every check run. -/\n")
-	sb.WriteString("import LiskVerif.Model.Locks\n\nnamespace LiskVerif.Gen.Skeletons\nopen LiskVerif.Locks\n\n")
+	if gr.name == "c20" {
+		sb.WriteString("/- GENERATED by tools/skelgen from /repo — do not edit. Regenerated on every check run. -/\n")
+	} else {
+		fmt.Fprintf(&sb, "/- GENERATED by tools/skelgen (group %s: %s) from /repo — do not edit. Regenerated on every check run. -/\n", gr.name, gr.about)
+	}
+	sb.WriteString("import LiskVerif.Model.Locks\n\nnamespace " + gr.namespace + "\nopen LiskVerif.Locks\n\n")
 	for _, s := range skels {
 		kind := "entry point"
 		if !s.Entry {
@@ -1378,7 +1550,7 @@ func main() {
 		}
 		sb.WriteString(leanStr(m))
 	}
-	sb.WriteString("]\n\nend LiskVerif.Gen.Skeletons\n")
+	sb.WriteString("]\n\nend " + gr.namespace + "\n")
 	if *leanOut != "" {
 		if err := os.WriteFile(*leanOut, []byte(sb.String()), 0o644); err != nil {
 			fmt.Fprintln(os.Stderr, err)
@@ -1396,5 +1568,5 @@ func main() {
 	for _, s := range skels {
 		unknown += s.Unkown
 	}
-	fmt.Printf("skelgen: %d skeletons, %d unknown constructs\n", len(skels), unknown)
+	fmt.Printf("skelgen[%s]: %d skeletons, %d unknown constructs\n", gr.name, len(skels), unknown)
 }
